@@ -318,7 +318,7 @@ FeedEnd(S) == [S EXCEPT !.eof = TRUE]
 Starved(S) == S.pos >= Len(S.tape)
 \* The code looks ahead (rest of the line inside a Description, whole body for
 \* Len()): the environment must have supplied that much before a step is taken.
-NeedLook(S) == (S.mode.m \in {"DN", "DB"} /\ S.pos < Len(S.tape) /\ ~Decidable(S, S.pos)) \/ BodyLookNeeded(S)
+NeedLook(S) == (S.mode.m \in {"DN", "DB", "DS"} /\ S.pos < Len(S.tape) /\ ~Decidable(S, S.pos)) \/ BodyLookNeeded(S)
 CanFeed(S) == S.res = "run" /\ ~S.eof /\ (Starved(S) \/ NeedLook(S))
 CanStep(S) == S.res = "run" /\ (S.pos < Len(S.tape) \/ (S.eof /\ S.pos = Len(S.tape))) /\ ~NeedLook(S)
 
